@@ -185,6 +185,9 @@ func runArtela(c *diffCase, w *world, u progen.Universe, code0 []byte) *runResul
 	w.apply(env.State)
 	to := u.Contracts[0]
 	env.Prepare(&to)
+	if env.Rules.IsBerlin {
+		env.State.AddAddressToAccessList(diffCaller) // the transaction sender is always warm
+	}
 	input, _ := hex.DecodeString(c.Input)
 	value := new(big.Int).SetUint64(c.Value)
 	var ret []byte
@@ -247,6 +250,9 @@ func runUpstream(c *diffCase, w *world, u progen.Universe, code0 []byte) *runRes
 	rules := cfg.Rules(big.NewInt(0), merge, 0)
 	to := u.Contracts[0]
 	st.Prepare(rules, impl.Origin, impl.Coinbase, &to, ethvm.ActivePrecompiles(rules), nil)
+	if rules.IsBerlin {
+		st.AddAddressToAccessList(diffCaller)
+	}
 	input, _ := hex.DecodeString(c.Input)
 	value := new(big.Int).SetUint64(c.Value)
 	var ret []byte
